@@ -1,0 +1,23 @@
+//go:build verif
+
+// Verification-only hook (build tag "verif"): lets the property-based harness
+// start every generated registry history from the same register contents.
+// With the tag off this file is not compiled.
+
+package psatoken
+
+// VerifCheckpointProfiles snapshots the global profile register and returns a
+// function that restores it to that snapshot.
+func VerifCheckpointProfiles() (restore func()) {
+	saved := make(map[string]profileEntry, len(profilesRegister))
+	for k, v := range profilesRegister {
+		saved[k] = v
+	}
+
+	return func() {
+		profilesRegister = make(map[string]profileEntry, len(saved))
+		for k, v := range saved {
+			profilesRegister[k] = v
+		}
+	}
+}
